@@ -5,6 +5,7 @@ import QG.Spec.Kron2
 import QG.Lemmas.Frames
 import QG.Lemmas.FrameInvariant
 import QG.Lemmas.LayerSim
+import QG.Lemmas.GridSim
 
 /-!
 # C03 — with noise switched off the simulator reproduces the ideal circuit
@@ -35,8 +36,11 @@ states (`QG.Lemmas.LayerSim.run_sim`: same phases, and the layers read with a qu
 are the registered item list), so the frame invariant transfers.  That every layer-based backend applies exactly the
 product of those items is C01 (`standard_spec`, `efficient_spec`, `ones_spec`, `binary_layer_spec`).
 
-`_partial`: the legacy fixed-depth `Circuit` class (a grid of columns instead of a list of layers) is not lifted; it is
-exercised end to end by the Qiskit oracle of the check, and its placements by the C08 / C11 correspondence.  "Ideal circuit" means the standard matrices of
+`noise_free_run_spec_grid` / `noise_free_pipeline_grid` — the same for the legacy fixed-depth `Circuit` class (a grid of
+columns, a new column opened lazily; `QG.Lemmas.GridSim`), for whatever depth the run is given, provided the run returns
+normally (a grid that is too shallow raises `IndexError`, in the model as in the code).  That `Circuit.statevector` multiplies
+the `kron` of the columns is read off its three lines and exercised by the end-to-end Qiskit oracle; it is not one of the
+backends of C01.  "Ideal circuit" means the standard matrices of
 `QG/Lemmas/Frames.lean` (`stdX, stdSX, stdCX, stdECR`, `rz θ = diag(e^{-iθ/2}, e^{iθ/2})`), which the check compares with
 Qiskit's on every run.
 -/
@@ -501,6 +505,60 @@ theorem noise_free_pipeline_layered (n : Nat) (hn : 0 < n) (data : List (Op ℝ)
   refine ⟨?_, noise_free_run_spec_layered n hn _ (wf_callsLayered n data hwf) hrow st' h ψ0 x⟩
   obtain ⟨_, _, _, hs⟩ := run_sim P n _ (LayerState.init P n) st' (BinState.init P n) (rel_init P n hn) hrow h
   rw [hs]; exact hend
+
+/-! ## the legacy fixed-depth class `Circuit` (a grid of columns)
+
+`QG.Lemmas.GridSim`: every column of the grid, read with a qubit offset like a layer (`Circuit.statevector` multiplies the
+`kron` of every column, first column first), gives the items of that gate time; the same simulation argument applies.
+The grid opens a new column lazily, so the statements are about whatever depth the run was given: they assume that the
+run returns normally (a grid that is too shallow raises `IndexError`, which the model reproduces). -/
+
+open QG.Lemmas.LayerSim QG.Lemmas.GridSim in
+/-- the operator of the columns of a grid circuit object -/
+noncomputable def simOpG (n : Nat) (st : GridState ℝ) : Op ℂ n :=
+  (GA n).sem ((gridItems st).map (interp frameSys))
+
+open QG.Lemmas.LayerSim QG.Lemmas.GridSim in
+/-- **C03 for the grid class, call level** -/
+theorem noise_free_run_spec_grid (n d : Nat) (hn : 0 < n) (cs : List (CircCall ℝ)) (hwf : ∀ c ∈ cs, WFCall n c)
+    (hrow : RowOrdered n 0 cs) (st' : GridState ℝ)
+    (h : foldE (GridState.step P) (GridState.init P n d) cs = .ok st') (ψ0 : State ℂ n) (x : BV n) :
+    ‖(simOpG n st' ψ0) x‖ = ‖(trueOps n cs ψ0) x‖ := by
+  have hrow' : RowOrderedG n (GridState.init P n d).s cs :=
+    rowOrderedG_of n cs 0 (by
+      have : effS n 0 = 0 := by unfold effS; split <;> omega
+      rw [this]; exact hrow)
+  obtain ⟨b', hb', hr⟩ := run_simG P n d cs (GridState.init P n d) st' (BinState.init P n) (relG_init P n d hn) hrow' h
+  have := noise_free_run_spec_binary n cs hwf b' hb' ψ0 x
+  unfold simOp at this
+  rw [hr.items] at this
+  exact this
+
+open QG.Lemmas.LayerSim QG.Lemmas.GridSim in
+/-- **C03 for the grid class, pipeline level**: for every register size, every depth and every preprocessed native
+circuit with rows in range and two-qubit gates on adjacent rows, if the calls the simulator's layered branch issues run on
+a new `Circuit(n, depth)` without error, its columns reproduce the ideal circuit's Born probabilities -/
+theorem noise_free_pipeline_grid (n d : Nat) (hn : 0 < n) (data : List (Op ℝ)) (hwf : ∀ op ∈ data, LWF' n op)
+    (st' : GridState ℝ) (h : foldE (GridState.step P) (GridState.init P n d) (callsLayered n data) = .ok st')
+    (ψ0 : State ℂ n) (x : BV n) :
+    ‖(simOpG n st' ψ0) x‖ = ‖(trueOps n (callsLayered n data) ψ0) x‖ := by
+  have hl : ∀ op ∈ data, LWF n op := by
+    intro op hop
+    have := hwf op hop
+    cases op <;> first | exact this | trivial
+  exact noise_free_run_spec_grid n d hn _ (wf_callsLayered n data hwf) (rowOrdered_callsLayered n data hl).1 st' h ψ0 x
+
+open QG.Lemmas.LayerSim QG.Lemmas.GridSim in
+/-- non-vacuity: the same circuit on a grid of the depth the simulator computes (`len(data) - n_rz + 1 = 3`); a grid of
+depth 2 raises `IndexError` -/
+example :
+    (foldE (GridState.step intPhase) (GridState.init intPhase 3 3) (callsLayered 3 [.rz 1 5, .cx 1 0, .sx 2])).map
+      (fun st => ((gridItems st).map (fun it => (it.gate.map (·.method), it.i, it.j)), st.j, st.s))
+    = .ok ([(some "CNOT_inv", 0, 1), (none, 2, -1), (none, 0, -1), (none, 1, -1), (some "SX", 2, -1),
+            (some "bitflip", 0, -1), (some "bitflip", 1, -1), (some "bitflip", 2, -1)], 2, 3) ∧
+    (foldE (GridState.step intPhase) (GridState.init intPhase 3 2) (callsLayered 3 [.rz 1 5, .cx 1 0, .sx 2])).toOption
+      = none := by
+  constructor <;> rfl
 
 open QG.Lemmas.LayerSim in
 /-- non-vacuity: a reversed CNOT on rows (1,0) after an rz, then an sx on row 2, is in the domain (`LWF'`), the layered
